@@ -161,6 +161,16 @@ structure ModifyRequestF where
   Operation : List AFTOperation
   deriving DecidableEq, Repr, Inhabited
 
+/-- `spb.ModifyRequest` as `UpdateElectionID` builds it -/
+structure ModifyRequestE where
+  ElectionId : Option U128
+  deriving DecidableEq, Repr, Inhabited
+
+/-- a pre-formed `spb.ModifyRequest` handed to `Enqueue` / `InjectRequest`: never looked at -/
+structure ReqTok where
+  Tag : Nat
+  deriving DecidableEq, Repr, Inhabited
+
 /-- `fluent.gRIBIConnection` as `entriesToModifyRequest` looks at it -/
 structure GRIBIConnection where
   redundMode : Nat
@@ -672,6 +682,10 @@ inductive Eff where
   | addSendErr (e : Option Status)
   /-- the client's `q(m)`: the request is handed to the sender goroutine -/
   | clientq (m : Option ModifyRequestC)
+  /-- the fluent client's `g.parent.c.Q(m)`: the request is queued on the client -/
+  | flQ (m : Option ModifyRequestF)
+  | flQElec (m : Option ModifyRequestE)
+  | flQTok (m : Option ReqTok)
   deriving DecidableEq, Repr, Inhabited
 
 /-! ### the fluent builders (fluent/fluent.go): the protobufs they compose, field by field -/
@@ -847,6 +861,16 @@ structure NhgBuilder where
   ni : String
   pb : NhgKeyB
   electionID : Option U128
+  deriving DecidableEq, Repr, Inhabited
+
+/-- `fluent.gRIBIGet` / `fluent.gRIBIFlush`: the request under construction (the back pointer to the
+client is not represented) -/
+structure GetBuilder where
+  pb : GetRequestG
+  deriving DecidableEq, Repr, Inhabited
+
+structure FlushBuilder where
+  pb : FlushRequestB
   deriving DecidableEq, Repr, Inhabited
 
 /-- outcome of one iteration of the Modify receive loop: the RPC ends with this error (`none` =
